@@ -616,7 +616,7 @@ def _anchoring(init_func, method):
             consts = [c.value for c in sorted(
                 (c for c in ast.walk(arg)
                  if isinstance(c, ast.Constant) and isinstance(c.value, str)),
-                key=lambda c: (c.lineno, c.col_offset))]
+                key=lambda c: getattr(c, "_ord", (c.lineno, c.col_offset)))]
             has_var = any(isinstance(c, ast.Name) for c in ast.walk(arg))
             if method == 'fullmatch':
                 return 'whole'
